@@ -21,7 +21,7 @@ func c08Oracle(sc advScenario, r *advResult) error {
 	}
 	tl := func() string { return r.W.timeline() }
 	if !r.Returned {
-		return verifkit.Violf("C08/run-does-not-return", "Run has not returned 30 s after the stop at %v\n%s", r.StopAt, tl())
+		return verifkit.Violf("C08/run-does-not-return", "Run has not returned %v after the stop at %v\n%s", time.Duration(sc.WaitNS), r.StopAt, tl())
 	}
 	if r.RetErr != nil {
 		return verifkit.Violf("C08/run-returns-error", "Run returned %v after a stop request\n%s", r.RetErr, tl())
@@ -105,6 +105,10 @@ func c08Oracle(sc advScenario, r *advResult) error {
 func c08Prop(t *testing.T, k *verifkit.Kit) func(sc advScenario) error {
 	return func(sc advScenario) error {
 		sc.TailNS = int64(10 * time.Minute)
+		sc.WaitNS = int64(30 * time.Second)
+		for _, l := range sc.Lat {
+			sc.WaitNS += 3 * l.NS // a transmission in flight, then the final one: the wait is the harness's patience, not a verdict
+		}
 		r := runAdvertiser(t, sc, nil)
 		if r.W == nil {
 			return fmt.Errorf("verif: world not created: %v", r.Panic)
@@ -160,11 +164,11 @@ func c08Gen(t *rapid.T) advScenario {
 	switch rapid.IntRange(0, 3).Draw(t, "latkind") {
 	case 0:
 	case 1:
-		sc.Lat = []latRule{{Dst: "any", N: -1, NS: rapid.SampledFrom([]int64{1, int64(time.Millisecond), 700 * int64(time.Millisecond), 2 * s}).Draw(t, "lat")}}
+		sc.Lat = []latRule{{Dst: "any", N: -1, NS: rapid.SampledFrom([]int64{1, int64(time.Millisecond), 700 * int64(time.Millisecond), 2 * s, 2*s + 1, 5 * s, 31 * s, 300 * s}).Draw(t, "lat")}}
 	case 2:
-		sc.Lat = []latRule{{Dst: "unicast", N: -1, NS: rapid.Int64Range(0, 2*s).Draw(t, "ulat")}}
+		sc.Lat = []latRule{{Dst: "unicast", N: -1, NS: c08Lat(t, "ulat")}}
 	default:
-		sc.Lat = []latRule{{Dst: "multicast", N: rapid.IntRange(1, 3).Draw(t, "mn"), NS: rapid.Int64Range(0, 2*s).Draw(t, "mlat")}}
+		sc.Lat = []latRule{{Dst: "multicast", N: rapid.IntRange(1, 3).Draw(t, "mn"), NS: c08Lat(t, "mlat")}}
 	}
 	if rapid.IntRange(0, 5).Draw(t, "statedelay") == 0 {
 		sc.StateDelayNS = rapid.SampledFrom([]int64{1, int64(time.Millisecond), 300 * int64(time.Millisecond)}).Draw(t, "sd")
@@ -180,12 +184,22 @@ func c08Gen(t *rapid.T) advScenario {
 	return sc
 }
 
+// c08Lat: how long a transmission takes - mostly what a busy link does, sometimes what a stalled one does (a
+// write to a raw socket has no deadline: nothing bounds it).
+func c08Lat(t *rapid.T, label string) int64 {
+	s := int64(time.Second)
+	if rapid.IntRange(0, 3).Draw(t, label+"long") == 0 {
+		return rapid.Int64Range(2*s, 120*s).Draw(t, label)
+	}
+	return rapid.Int64Range(0, 2*s).Draw(t, label)
+}
+
 // c08Matrix: {idle, pending unicast, pending multicast, in-flight unicast,
 // in-flight multicast, RS at the stop instant} x {terminate, reload} x latency.
 func c08Matrix(yield func(advScenario) bool) {
 	s := int64(time.Second)
 	ms := int64(time.Millisecond)
-	for _, lat := range []int64{0, ms, 700 * ms} {
+	for _, lat := range []int64{0, ms, 700 * ms, 6 * s} {
 		for _, term := range []bool{true, false} {
 			for kind := 0; kind < 6; kind++ {
 				for _, life := range []int64{1800, 0} {
